@@ -113,6 +113,24 @@ PROPS = {
         "partial": "symlinks; OS path resolution is an assumption of the model",
         "harness_timeout": 1200,
     },
+    "C10": {
+        "cmd": "c10",
+        "theorems": ["C10_gen_relations", "C10_features", "C10_failure_only_on_invalid_tags", "C10_reindex", "C10_varint_roundtrip"],
+        "nontrivial": lambda l: l.startswith("mvt.merge") or (l.startswith("mvt.") and "=" in l.split(" => ")[-1]),
+        "rule": "tiles are produced by an encoder written for the harness from the MVT specification (independent of the repository), using the freedoms other encoders use: duplicate and unused key/value table entries, int64 / sint64 / uint64 / float / double / bool / string values incl. extreme magnitudes, unknown geometry type 0, non-default extent and version, ids up to 2^64-1, tables before or after the features, 0-3 layers, 0-5 features; every tile is decoded by the implementation and by the extracted Coq decoder (mvt.dec), re-encoded and decoded again (mvt.rt), and compared with the content the encoder put in; every second tile is also mutated (bit flip, truncation, byte replacement, insertion) and must decode or fail identically in both; varint/zig-zag values go through the implementation's writer and reader (varint, svarint lines); merging: 2-4 in-memory sources (uncompressed / gzip / brotli, some without a tile at the coordinate) through `from_vectortiles_merged [...]`: the looked-up and the streamed output are decoded and compared with the expected grouping by layer name and concatenation of features in source order, and with the Coq merge model (mvt.merge lines); existence iff some source has a tile; output declared uncompressed. non-trivial = a merge line, or a decoded tile with at least one property",
+        "level_text": "Proved in Coq for arbitrary tables (any order, duplicates, unused entries) and any number of features: add_from_layer leaves the target's features unchanged and appends the source's features in order, each with the same id, geometry type, geometry bytes and decoded property list although every tag id is re-indexed; it fails only when a source feature's tags do not decode in its own layer; encode_tag_ids followed by decode_tag_ids is the identity and tables only grow; varints round-trip for every u64. The model (decoder, encoder, merger) is compared with the implementation on independently encoded, re-encoded, mutated and merged tiles on every run.",
+        "level_note": "Trusted: Coq kernel; model coq/Model/MVT.v (floats as bit patterns, strings as bytes with UTF-8 validity checked in the driver, HashMap layer order canonicalised by sorting); scraped table/zig-zag variants; hook versatiles_geometry::vector_tile::verif_hooks is not needed for this check (public API only); extraction + driver; harness with its own MVT encoder. Full byte-level decode(encode t) = t is checked by the runs, not proved. Print Assumptions: closed.",
+        "partial": "byte-level wire round trip of whole tiles is tested (mvt.rt lines), not proved; geometry is opaque bytes",
+    },
+    "C11": {
+        "cmd": "c11",
+        "theorems": ["C11_gen_relations", "C11_tables_kept_as_stored", "C11_reencode_identity", "C11_untouched_features", "C11_zigzag_roundtrip", "C11_varint_roundtrip"],
+        "nontrivial": lambda l: l.startswith("svarint") or (l.startswith("mvt.") and "=" in l.split(" => ")[-1]),
+        "rule": "tiles are produced by an encoder written for the harness from the MVT specification (independent of the repository), using the freedoms other encoders use: duplicate and unused key/value table entries, int64 / sint64 / uint64 / float / double / bool / string values incl. extreme magnitudes, unknown geometry type 0, non-default extent and version, ids up to 2^64-1, tables before or after the features, 0-3 layers, 0-5 features; every tile is decoded by the implementation and by the extracted Coq decoder (mvt.dec), re-encoded and decoded again (mvt.rt), and compared with the content the encoder put in; every second tile is also mutated (bit flip, truncation, byte replacement, insertion) and must decode or fail identically in both; varint/zig-zag values go through the implementation's writer and reader (varint, svarint lines); update: tiles whose layers carry a `tid` property go through `vectortiles_update_properties` with a generated CSV (ids 0..3 partly missing; values that parse as strings, bools, ints, uints, doubles, empty) for all 8 combinations of replace_properties / remove_non_matching / include_id (and a layer name that may be absent): the output is decoded and compared with the expected join (other layers content-equal; retained features keep order, id, type, geometry; properties merged or replaced; unmatched kept or dropped). non-trivial = a zig-zag line or a decoded tile with at least one property",
+        "level_text": "Proved in Coq: a layer's tables are kept exactly as stored when read (so tag ids keep their meaning; the pre-fix de-duplicating read is refuted by the witness a,b,a,c); re-encoding any property list into any tables and decoding it again is the identity (what filter_map_properties does for retained features); features that are not re-encoded keep id, type, geometry and properties when tables grow; zig-zag decoding inverts encoding on the whole i64 range (the pre-fix arithmetic-shift decoder is refuted at 2^63-1); varints round-trip for every u64. Join semantics of the operation (merge / replace / removal / id column) are checked against an independently written expectation on every run.",
+        "level_note": "Trusted: Coq kernel; model coq/Model/MVT.v; scraped variants; extraction + driver; harness with its own MVT encoder and its own statement of the join semantics. The CSV reader and GeoValue::parse_str typing are tested, not modelled. Print Assumptions: closed.",
+        "partial": "the join itself (Runner::run, CSV typing) is tested at spec level; frequency-sorted table construction (PropertyManager::from_iter) is abstracted - the theorems hold for any tables",
+    },
     "C13": {
         "cmd": "c13",
         "theorems": ["C13_gen_positional_read", "C13_read_range", "C13_cached_index_lookup"],
